@@ -84,6 +84,11 @@ def cache_machine(stats, clauses, nontrivial, accepted_only):
         def odd_address(self, a, w, v, rw):
             self._send(["r", w, a, True] if rw else ["w", w, a, v & ((1 << (8 * w)) - 1)])
 
+        @precondition(lambda self: self.case is not None and self.gen is not None and len(self.case["ops"]) >= 3)
+        @rule()
+        def reset(self):
+            self._send(["z"])
+
         def teardown(self):
             if self.gen is not None and not self.dead:
                 flags, tags = self.gen.send(None)
